@@ -142,12 +142,11 @@ PROPS = {
         cfgs_thorough=ALL4,
     ),
     "C07": dict(
-        theorems=["groestl_conforms_partial", "counter_exact", "final_count_exact"],
+        theorems=["groestl_conforms", "tf512_is_f", "of512_is_omega", "tf1024_is_f", "of1024_is_omega",
+                  "counter_exact", "final_count_exact"],
         gen=g("C07"),
         cfgs_quick=["std-debug", "std-release"],
         cfgs_thorough=["std-debug", "std-release"],
-        strength="partial",
-        partial_note="tf = f and of = Ω are hypotheses of groestl_conforms_partial, discharged on concrete inputs by evaluation",
     ),
 }
 
